@@ -155,7 +155,8 @@ pub struct Setup {
 fn draw_app(w: &mut World, i: usize) -> (App, Vec<u32>) {
     let key = format!("setup/app#{i}");
     let inv = w.profile.invalid_app_permille;
-    let mut id = format!("app-{i}");
+    // some ids in the GUID form with upper-case letters (keys derived from an id must keep its case)
+    let mut id = if w.draws.draw(&format!("{key}/id.form"), 4) == 3 { format!("{{8A69D345-D564-463C-AFF1-A69D9E53{i:04X}}}") } else { format!("app-{i}") };
     let mut version: Vec<u32> = match w.draws.draw(&format!("{key}/version"), 4) {
         0 => vec![1, 2, 3, 4],
         1 => vec![1],
@@ -605,7 +606,7 @@ fn run_life(world: &Shared, setup: &Setup, steps: &mut u64) -> LifeEnd {
     let timer = SimTimer { w: world.clone() };
     let metrics = SimMetrics { w: world.clone() };
     let disk = Rc::new(futures::lock::Mutex::new(SimDisk { w: world.clone() }));
-    let app_set = Rc::new(futures::lock::Mutex::new(SimAppSet { apps: setup.apps.clone(), system_idx: setup.system_idx }));
+    let app_set = Rc::new(futures::lock::Mutex::new(SimAppSet { apps: setup.apps.clone(), system_idx: setup.system_idx, w: Some(world.clone()) }));
     let disk_rc = disk.clone();
     let apps_rc = app_set.clone();
     let builder = StateMachineBuilder::new(policy, http, installer, timer, metrics, disk, config, app_set, handler);
@@ -678,6 +679,7 @@ fn run_life(world: &Shared, setup: &Setup, steps: &mut u64) -> LifeEnd {
             .collect()
     };
     let mut clients: Vec<ClientFut> = vec![];
+    let mut consumer_blocked: Option<LocalBoxFuture<'static, ()>> = None;
     let mut neighbours: Vec<(u32, LocalBoxFuture<'static, ()>, Arc<WakeFlag>, bool)> = vec![];
     let mut checks_done = 0u32;
     let mut events_received = 0u64;
@@ -785,6 +787,19 @@ fn run_life(world: &Shared, setup: &Setup, steps: &mut u64) -> LifeEnd {
             What::ConsumerPoll => {
                 advance(world, ev.t);
                 consumer_poll_scheduled = false;
+                // an observer that looks into the shared storage while handling an event does not
+                // take the next event before it got the lock
+                if let Some(fut) = consumer_blocked.as_mut() {
+                    consumer_flag.flag.store(false, Ordering::SeqCst);
+                    let waker = Waker::from(consumer_flag.clone());
+                    let mut cx = Context::from_waker(&waker);
+                    if fut.as_mut().poll(&mut cx).is_ready() {
+                        consumer_blocked = None;
+                    } else {
+                        lock(world).rec(Kind::Poll { task: "consumer-storage".into(), ready: false });
+                        continue;
+                    }
+                }
                 if let Some(s) = stream.as_mut() {
                     consumer_flag.flag.store(false, Ordering::SeqCst);
                     let waker = Waker::from(consumer_flag.clone());
@@ -812,6 +827,24 @@ fn run_life(world: &Shared, setup: &Setup, steps: &mut u64) -> LifeEnd {
                                 done_pending = true;
                             }
                             let life = w.life;
+                            let touch = w.profile.observer_reads_storage_permille;
+                            if w.draws.chance(&format!("L{life}/consumer#{events_received}/storage"), touch) {
+                                w.stat("sched.observer_locks_storage");
+                                drop(w);
+                                let d = disk_rc.clone();
+                                let mut fut: LocalBoxFuture<'static, ()> = async move {
+                                    let _g = d.lock().await;
+                                }
+                                .boxed_local();
+                                consumer_flag.flag.store(false, Ordering::SeqCst);
+                                let waker = Waker::from(consumer_flag.clone());
+                                let mut cx = Context::from_waker(&waker);
+                                if fut.as_mut().poll(&mut cx).is_pending() {
+                                    lock(world).stat("sched.observer_waits_for_storage");
+                                    consumer_blocked = Some(fut);
+                                }
+                                w = lock(world);
+                            }
                             let lazy = w.profile.lazy_consumer_permille;
                             let d = if w.draws.chance(&format!("L{life}/consumer#{events_received}/lazy"), lazy) {
                                 w.stat("sched.lazy_consumer");
@@ -1042,6 +1075,7 @@ fn run_life(world: &Shared, setup: &Setup, steps: &mut u64) -> LifeEnd {
         w.tearing_down = true;
     }
     drop(clients);
+    drop(consumer_blocked);
     drop(neighbours);
     drop(stream);
     drop(handle);
@@ -1164,7 +1198,7 @@ pub fn probe(
         SimMetrics { w: pworld.clone() },
         Rc::new(futures::lock::Mutex::new(SimDisk { w: pworld.clone() })),
         config,
-        Rc::new(futures::lock::Mutex::new(SimAppSet { apps: setup.apps.clone(), system_idx: setup.system_idx })),
+        Rc::new(futures::lock::Mutex::new(SimAppSet { apps: setup.apps.clone(), system_idx: setup.system_idx, w: None })),
         handler,
     );
     let flag = WakeFlag::new();
